@@ -247,9 +247,9 @@ def ex_mq(case):
 
     s = q.stats
     ok_pubs = [p for p in pubs if p[2]]
-    if s.messages_published != len(ok_pubs):
+    if status == "done" and s.messages_published != len(ok_pubs):
         r.add(f"{pre}/published-counter", f"messages_published={s.messages_published}, {len(ok_pubs)} publishes succeeded")
-    if s.messages_acknowledged != len(acked_at):
+    if status == "done" and s.messages_acknowledged != len(acked_at):
         r.add(f"{pre}/acknowledged-counter", f"messages_acknowledged={s.messages_acknowledged}, {len(acked_at)} acknowledgements took effect")
     if s.messages_dead_lettered != dlq.message_count:
         r.add(f"{pre}/dead-letter-counter", f"messages_dead_lettered={s.messages_dead_lettered}, DLQ holds {dlq.message_count}")
@@ -566,7 +566,7 @@ def group_strategy(tier):
                     st.sampled_from(["join", "leave", "rejoin", "rejoin", "poll", "poll", "poll", "poll", "poll", "app", "app", "app",
                                      "app", "app"]),
                     st.integers(0, 3), st.integers(0, len(KEYS) - 1), st.sampled_from([1, 1, 2, 3, 100, 100])).map(list)
-    return st.fixed_dictionaries({"np": st.integers(1, 5), "strategy": st.integers(0, 2), "rdelay": st.sampled_from([0, 1, 2, 4]),
+    return st.fixed_dictionaries({"np": st.integers(1, 5), "strategy": st.sampled_from([2, 1, 0, 1, 2, 0]), "rdelay": st.sampled_from([0, 1, 2, 4]),
                                   "plat": st.sampled_from([0, 1, 3]), "al": st.sampled_from([0, 1, 3]),
                                   "ncons": st.integers(1, 4), "init": st.sampled_from([1, 1, 3, 3, 7, 15, 2, 5, 6, 0]),
                                   "script": st.lists(act, min_size=12, max_size=60 if big else 32)})
